@@ -55,6 +55,17 @@ pub assume_specification<P: Pattern>[ str::contains::<P> ](s: &str, pat: P) -> (
         pat_is_str(pat) ==> r == has_infix(s@, pat_str(pat)),
         pat_is_char(pat) ==> r == s@.contains(pat_char(pat));
 
+pub assume_specification<P: Pattern>[ str::strip_suffix::<P> ](s: &str, pat: P) -> (r: Option<&str>)
+    where for<'a> P::Searcher<'a>: std::str::pattern::ReverseSearcher<'a>
+    ensures
+        pat_is_str(pat) && has_suffix(s@, pat_str(pat)) ==> r is Some && r->0@ == s@.subrange(0, s@.len() - pat_str(pat).len()),
+        pat_is_str(pat) && !has_suffix(s@, pat_str(pat)) ==> r is None;
+
+pub assume_specification<P: Pattern>[ str::strip_prefix::<P> ](s: &str, pat: P) -> (r: Option<&str>)
+    ensures
+        pat_is_str(pat) && has_prefix(s@, pat_str(pat)) ==> r is Some && r->0@ == s@.subrange(pat_str(pat).len() as int, s@.len() as int),
+        pat_is_str(pat) && !has_prefix(s@, pat_str(pat)) ==> r is None;
+
 // <[T]>::contains — ASSUMED for element types whose PartialEq is structural equality of the
 // spec value (used with T = &str, where equal contents <==> equal values by axiom_str_ext)
 pub assume_specification<T: std::cmp::PartialEq>[ <[T]>::contains ](v: &[T], x: &T) -> (r: bool)
